@@ -19,6 +19,7 @@ myth_globalattr_t g_attr;
 static int myth_init_ex_body_really(const myth_globalattr_t * attr) {
   int nw;
   myth_get_available_cpus();
+  MYTH_VERIF_POINT(MYTH_VS_INIT_ATTR_WR);
   if (attr) {
     g_attr = *attr;
   } else {
